@@ -17,13 +17,13 @@ RULE = ("one evaluation = one event history (<= 16 events) over {connect request
         "the responder, failures/stream errors delivered upward - are compared with a reference connection state machine. "
         "Non-trivial = a connection went up and down and one of {error, stream error, ping timeout, reconnect} occurred; "
         "distinct by (options, event list) hash")
-ASSUMPTIONS = ["a disconnect request is only issued while a connection is up or being established, a connect request only while none is (the quantifier says so)",
+ASSUMPTIONS = ["a disconnect request is only issued while a connection is up or being established (the quantifier says so); a connect request while none is, or while one is up (then it has to be refused); not while one is being established",
                "unknown stream-error kinds raise by design and are not generated",
                "a 'disconnected' announcement for an attempt that never came up is not a refutation",
                "the first login (key upload + reconnect) happens before the judged history starts",
                "the real socket/asyncore dispatchers are driven through 6 scripted lifecycles each over loopback TCP (peer close, local disconnect, refused connect, login failure, stream error with automatic reconnect, re-login); a bare timeout there is reported as a violation only together with the observed announcement counts"]
 REQUIRED = ["pong_race_histories", "pong_delivered_inside_ping_send", "race_sweep_histories", "tick_race_paused_mid_step", "histories", "events", "checkpoints", "ev:connected", "ev:success", "ev:failure", "ev:stream-error", "ev:tick", "ev:pong",
-            "ev:connected-held", "ev:release-handshake", "ev:socket-error", "ev:peer-close", "ev:disconnect-request", "auto_reconnects", "ping_timeouts", "pings_seen", "states_visited",
+            "ev:connected-held", "ev:connect-request-while-up", "ev:release-handshake", "ev:socket-error", "ev:peer-close", "ev:disconnect-request", "auto_reconnects", "ping_timeouts", "pings_seen", "states_visited",
             "real_cases", "real_ok"]
 TIMEOUT = {"quick": 600, "thorough": 7200}
 
@@ -131,7 +131,7 @@ class PingRacer(object):
         mon.free_tool_id(inject.TOOL)
 
 
-EVENTS = ["connect-request", "connected", "connected-held", "release-handshake", "socket-error", "peer-close", "disconnect-request", "success", "failure", "stream-error:conflict",
+EVENTS = ["connect-request", "connect-request-while-up", "connected", "connected-held", "release-handshake", "socket-error", "peer-close", "disconnect-request", "success", "failure", "stream-error:conflict",
           "stream-error:ack", "stream-error:xml-not-well-formed", "tick", "tick", "tick", "pong",
           "tick-race:peer-close", "tick-race:disconnect-request", "tick-race:socket-error",
           "peer-close+connect-request", "socket-error+connect-request", "peer-close+reconnect-up", "tick-pong-race"]
@@ -170,6 +170,9 @@ class Ref(object):
     def enabled(self, ev):
         if ev == "connect-request":
             return self.conn == "down"
+        if ev == "connect-request-while-up":
+            # an application asking again although its connection is up: refused, nothing changes
+            return self.conn == "up"
         if ev in ("connected", "connected-held"):
             return self.conn == "connecting"
         if ev == "release-handshake":
@@ -210,6 +213,8 @@ class Ref(object):
         if ev == "connect-request":
             e["connect_calls"] += 1
             self.conn = "connecting"
+        elif ev == "connect-request-while-up":
+            pass
         elif ev in ("connected", "connected-held"):
             e["connected"] += 1
             e["logins"] += 1
@@ -381,7 +386,7 @@ def one_history(acc, seed, tag, forced=None):
             acc.count("events")
             acc.count("ev:" + ev.split(":")[0])
             d = c.dispatcher
-            if ev == "connect-request":
+            if ev in ("connect-request", "connect-request-while-up"):
                 c.guarded(lambda: c.app.connect(), "connect")
             elif ev in ("connected", "connected-held", "release-handshake"):
                 pass        # the scheduler delivers the pending connected callback; the handshake follows (or is withheld)
